@@ -14,6 +14,15 @@ def run(tier):
     rounds = 9 if tier == "quick" else 41
     work = vlib.mktmp("c13w-")
     shards = vlib.shard(names, vlib.NCPU)
+    # expectation-free corpus: generated hostile packages and scenario packages (identity round = baseline)
+    from props import c09 as _c09
+    gpats, man = corpus.generate(ws, 48 if tier == "quick" else 480, vlib.seed(), vw)
+    for k in range(2 if tier == "quick" else 8):
+        sub = os.path.join(ws, "sc%d" % k)
+        os.makedirs(sub)
+        _c09.make_scen(sub, vlib.rng("c13-scen-%d" % k), 1)
+        gpats.append("./sc%d/scen" % k)
+    gshards = vlib.shard(gpats, vlib.NCPU)
 
     def one(it):
         i, sh = it
@@ -23,7 +32,9 @@ def run(tier):
         sub = os.path.join(ws, "w%d" % i)
         os.makedirs(sub, exist_ok=True)
         # every worker writes below its own directory of the shared scratch module
-        rc = vlib.run_worker([vw, "c13", "-src", td, "-ws", ws, "-names", nf, "-rounds", str(rounds), "-seed", str(vlib.seed() * 100 + i), "-out", outp, "-sub", "w%d" % i],
+        gf = os.path.join(work, "g%d" % i)
+        open(gf, "w").write("\n".join(gshards[i] if i < len(gshards) else []) + "\n")
+        rc = vlib.run_worker([vw, "c13", "-src", td, "-ws", ws, "-names", nf, "-rounds", str(rounds), "-seed", str(vlib.seed() * 100 + i), "-out", outp, "-sub", "w%d" % i, "-genpats", gf],
                              os.path.join(work, "l%d" % i), 1500)
         return outp, os.path.join(work, "l%d" % i)
 
@@ -45,12 +56,13 @@ def run(tier):
         "rule": "evaluation = one transformed copy (T1 append unrelated declarations, T2 insert blank lines/padding declarations after the import block, T4 permute plain functions, and combinations) of one example package, "
                 "checked against the example's own /*! */ expectations which move with their declaration; distinct_nontrivial = example packages whose untouched copy (round 0, identity) meets its expectations under this harness; "
                 "only those are used (a failed control is a harness mismatch, listed, never an alarm)",
+        "generated_and_scenario_packages_ok": len(res.sets.get("gen_controls_ok", ())), "generated_variants_checked": res.counts.get("gen_variants_checked", 0),
         "examples": len(names), "controls_ok": ok, "control_failed": failed, "rounds": rounds,
         "variants_discarded_not_well_typed": res.counts.get("variants_discarded_not_well_typed", 0),
         "diagnostics_checked": res.counts.get("diagnostics_checked", 0),
         "diagnostics_inside_padding_not_counted": res.counts.get("diagnostics_inside_padding_not_counted", 0),
         "exempt": "typeDefFirst, dupImport, commentedOutImport, codegenComment are exempt from T4 only (their documented subject is file-level order)",
     }
-    floor = done == len(shards) and ok >= 95 and vc >= ok * (rounds - 1) * 0.8
+    floor = done == len(shards) and ok >= 95 and vc >= ok * (rounds - 1) * 0.8 and len(res.sets.get("gen_controls_ok", ())) >= 30
     vlib.finish(res, "exploration", tier, cov, floor_ok=floor, floor_msg="controls_ok=%d variants=%d failed=%s" % (ok, vc, failed),
                 assumptions=["the harness reproduces linttest: '/// ' directives blanked, captLocal.paramsOnly=false, commentedOutCode.minLength=9, type errors tolerated for caseOrder"])
